@@ -4,9 +4,11 @@ package main
 // render mode for canonical DSL output (C14).
 
 import (
+	"bytes"
 	"encoding/json"
 	"fmt"
 	"os"
+	"os/exec"
 	"sort"
 	"strings"
 
@@ -40,6 +42,36 @@ type wlPure struct {
 	Warm       []pOp    `json:"warm,omitempty"`
 	ColdBefore bool     `json:"cold_before,omitempty"`
 	Tasks      [][]pOp  `json:"tasks"`
+	// ProcessRestart: additionally execute the first call of task 0 as the very
+	// first operation of a fresh OS process (restart.process) and compare.
+	ProcessRestart bool `json:"process_restart,omitempty"`
+}
+
+type firstOpRequest struct {
+	Input pInput `json:"input"`
+	Op    pOp    `json:"op"`
+}
+
+// cmdFirstOp: worker firstop < request.json ; prints the op's result. The op
+// is the first thing this process does with the library.
+func cmdFirstOp() {
+	var req firstOpRequest
+	if err := json.NewDecoder(os.Stdin).Decode(&req); err != nil {
+		fmt.Fprintln(os.Stderr, "firstop:", err)
+		os.Exit(2)
+	}
+	op := req.Op
+	op.In = 0
+	fmt.Print(execOp(op, realise(&req.Input)))
+}
+
+func processRestartResult(in *pInput, op pOp) (string, error) {
+	req, _ := json.Marshal(&firstOpRequest{Input: *in, Op: op})
+	cmd := exec.Command(os.Args[0], "firstop")
+	cmd.Stdin = bytes.NewReader(req)
+	cmd.Env = append(os.Environ(), "GORACE=exitcode=0")
+	out, err := cmd.Output()
+	return string(out), err
 }
 
 // realised input
@@ -345,6 +377,15 @@ func (c *pureCtx) check(cfg simrt.Config) ([]mismatch, simrt.Stats, string) {
 			}
 		}
 	}
+	if wl.ProcessRestart && len(wl.Tasks) > 0 && len(wl.Tasks[0]) > 0 && valid(wl.Tasks[0][0]) {
+		op := wl.Tasks[0][0]
+		got, err := processRestartResult(&wl.Inputs[op.In], op)
+		if err != nil {
+			add("restart.process_failed", "the fresh process running %s as its first call died: %v", op.Kind, err)
+		} else if want := refOf(op); got != want {
+			add("restart.process_differs", "%s(input %d) as the first call of a fresh process: %s", op.Kind, op.In, diffAt(want, got))
+		}
+	}
 	for i, r := range rin {
 		if msg := r.untouched(); msg != "" {
 			add("input.modified", "input %d after the run: %s", i, msg)
@@ -591,9 +632,13 @@ func raceLogSince(off int64) string {
 	return string(buf[:n])
 }
 
-func pureRunOne(b *BatchResult, prop string, seed, run uint64, race bool) {
+func pureRunOne(b *BatchResult, prop string, seed, run uint64, race bool, restartEvery uint64) {
 	r := newRNG(seed, hashStr("puresim"), hashStr(prop), run)
 	wl := genPureWorkload(r)
+	if restartEvery > 0 && run%restartEvery == 0 && !race {
+		wl.ProcessRestart = true
+		b.Faults["restart.process"]++
+	}
 	c := newPureCtx(wl)
 	b.Workloads++
 	b.keySet[hashStr(wl.describe())] = true
